@@ -1,0 +1,42 @@
+package tcp
+
+import (
+	"io"
+	"net"
+
+	gkm "github.com/go-kit/kit/metrics"
+)
+
+// tunnel copies the data from in (read through inr) to out and from out to
+// in until both directions are done. When one side has finished sending, the
+// end of its stream is passed on by closing the write side of the other
+// connection, which can still send its reply. An error in either direction
+// ends the tunnel at once.
+func tunnel(in net.Conn, inr io.Reader, out net.Conn, rx, tx gkm.Counter) error {
+	errc := make(chan error, 2)
+	cp := func(dst net.Conn, src io.Reader, c gkm.Counter) {
+		err := copyBuffer(dst, src, c)
+		if err == nil {
+			err = closeWrite(dst)
+		}
+		errc <- err
+	}
+
+	go cp(in, out, rx)
+	go cp(out, inr, tx)
+	err := <-errc
+	if err == nil {
+		err = <-errc
+	}
+	return err
+}
+
+// closeWrite closes the write side of c. It returns io.EOF if c cannot be
+// closed for writing only, in which case the connection is done.
+func closeWrite(c net.Conn) error {
+	cw, ok := c.(interface{ CloseWrite() error })
+	if !ok || cw.CloseWrite() != nil {
+		return io.EOF
+	}
+	return nil
+}
